@@ -56,10 +56,14 @@ func replayObligation(ld *Loader, specs *Specs, fr *FuncResult, o *Obligation, r
 		return runReplayTest(repo, fr.Pkg, fn, src, "template: "+note)
 	}
 	src, note := genericScalarReplay(ld, fn, fr, o, model)
-	if src == "" {
-		return replayResult{Mode: "none", Note: note}
+	if src != "" {
+		return runReplayTest(repo, fr.Pkg, fn, src, "generic scalar replay")
 	}
-	return runReplayTest(repo, fr.Pkg, fn, src, "generic scalar replay")
+	src, note2 := genericReplay(ld, specs, fn, fr, o, model)
+	if src == "" {
+		return replayResult{Mode: "none", Note: note + "; " + note2}
+	}
+	return runReplayTest(repo, fr.Pkg, fn, src, note2)
 }
 
 func runReplayTest(repo, pkgPath string, fn *ssa.Function, src, mode string) replayResult {
